@@ -34,6 +34,7 @@ func (s *sim) restart(graceful bool, why string) bool {
 	s.bootAt = time.Now()
 	s.nRestart++
 	s.invalidate()
+	s.flushHLL()
 	if !s.waitLeader() {
 		s.violate("restart-no-leader", "", "after a restart (%s, graceful=%v) the single replica does not become leader within 120 rounds", why, graceful)
 		return false
@@ -168,10 +169,9 @@ func (s *sim) nextValid(d1 *dumpT, after string, shape string, afterErr bool) {
 	}
 	exp := d1.clone()
 	applyToDump(exp, st, key)
-	if ttlSet {
-		exp.text["ttl "+key] = "ttl"
-	}
+	_ = ttlSet
 	d2 := s.dump()
+	relaxKey(exp, d2, key)
 	if df := diffDump(exp, d2); df != "" {
 		s.violate("next-command-effect-differs", key2, "after %s the valid command %s -> %s leaves a state that differs from the model's prediction (expected -> found): %s", after, renderStrs(args), o.text(), df)
 		s.hitShapes[shape] = true
@@ -206,9 +206,11 @@ func (s *sim) stepValid() {
 	c.Count("valid_commands", 1)
 	shape := tp.name + "-valid"
 	s.invalidate()
-	if s.reportPanics(ps, shape, sent) {
-		s.restart(false, "after-apply-panic")
-		s.takePanics()
+	if s.reportPanics(ps, shape, "the valid command "+sent) {
+		if hasProcPanic(ps) {
+			s.restart(false, "after-apply-panic")
+			s.takePanics()
+		}
 		return
 	}
 	if !done {
@@ -217,9 +219,10 @@ func (s *sim) stepValid() {
 	}
 	if o.connPanic {
 		c.Probe("conn_closed_by_recover")
-		s.violate("conn-panic", "connpanic:"+shape, "the connection handler panicked on the valid command %s", sent)
+		s.violate("conn-panic", "connpanic:"+shape, "the connection was closed without a reply on the valid command %s", sent)
 		return
 	}
+	s.noteHLL(args, !o.isErr && !o.noReply)
 	if o.noReply {
 		c.Count("nothing_written."+tp.name, 1)
 	}
@@ -334,6 +337,7 @@ func (s *sim) stepBatch() {
 		s.cl.PumpFair(1, nil)
 	}
 	s.cl.Sleep(time.Duration(2*len(ms)) * time.Millisecond)
+	s.flushHLL()
 	ps := s.takePanics()
 	s.invalidate()
 	sent := renderArgs(margs)
@@ -362,7 +366,7 @@ func (s *sim) stepBatch() {
 	if mo.isErr {
 		s.nErr++
 	}
-	if s.reportPanics(ps, shape, sent) {
+	if s.reportPanics(ps, shape, sent) && hasProcPanic(ps) {
 		s.hitShapes[shape] = true
 		if s.restart(false, "after-apply-panic") {
 			if ps2 := s.takePanics(); len(ps2) > 0 {
@@ -377,11 +381,14 @@ func (s *sim) stepBatch() {
 		return
 	}
 	if mo.connPanic {
-		c.Probe("conn_closed_by_recover")
-		s.violate("conn-panic", "connpanic:"+shape, "the connection handler panicked on %s (server recovered it and closed the connection without a reply)", sent)
+		if !hasConnPanic(ps) {
+			c.Probe("conn_closed_by_recover")
+			s.violate("conn-panic", "connpanic:"+shape, "the connection was closed without a reply on %s", sent)
+		}
 		s.hitShapes[shape] = true
 	}
 	merr := mo.isErr || mo.noReply
+	s.noteHLL(margs, !merr)
 	moved := s.applied() - ap0
 	if maxBatch >= 2 {
 		c.Probe("multi_entry_apply_batch")
@@ -428,14 +435,12 @@ func (s *sim) stepBatch() {
 			s.hitShapes[shape] = true
 		}
 		applyToDump(exp, st, mb.key)
-		if ttlSet {
-			exp.text["ttl "+mb.key] = "ttl"
-		}
-		if mb.args[0] == "del" {
-			exp.text["ttl "+mb.key] = "none"
-		}
+		_ = ttlSet
 	}
 	d1 := s.dump()
+	for k := range nbKeys {
+		relaxKey(exp, d1, k)
+	}
 	if unknown {
 		// the mutated command was accepted: only the neighbours' keys are predictable
 		for k := range exp.text {
@@ -468,7 +473,7 @@ func (s *sim) stepBatch() {
 		}
 		d2 := s.dump()
 		if df := diffDump(d1, d2); df != "" {
-			s.violate("replay-diverged", "replay:"+shape, "apply batch (%s); after a restart (graceful=%v) the node serves different data: %s", strings.Join(line, " ;; "), graceful, df)
+			s.violate("replay-diverged", replayKey(name, moved >= uint64(len(ms))), "apply batch (%s); after a restart (graceful=%v) the node serves different data: %s", strings.Join(line, " ;; "), graceful, df)
 			s.hitShapes[shape] = true
 		}
 		s.base, s.baseR = d2, s.rawSnap()
@@ -519,8 +524,10 @@ func (s *sim) stepPipeline() {
 	s.invalidate()
 	if s.reportPanics(ps, shape, sent) {
 		s.hitShapes[shape] = true
-		s.restart(false, "after-apply-panic")
-		s.takePanics()
+		if hasProcPanic(ps) {
+			s.restart(false, "after-apply-panic")
+			s.takePanics()
+		}
 		return
 	}
 	if !done {
@@ -528,7 +535,7 @@ func (s *sim) stepPipeline() {
 		s.hitShapes[shape] = true
 		return
 	}
-	if call.conn.closed && len(o.replies) < n {
+	if call.conn.closed && len(o.replies) < n && !hasConnPanic(ps) {
 		c.Probe("conn_closed_by_recover")
 		s.violate("conn-panic", "connpanic:"+shape, "the connection handler panicked on %s (connection closed after %d of %d replies)", sent, len(o.replies), n)
 		s.hitShapes[shape] = true
@@ -564,3 +571,16 @@ func (s *sim) finalLiveness() {
 }
 
 var _ = nodeh.NS
+
+// relaxKey: the reference model predicts the five core reads of the key a
+// valid command touched; what the other reads (legacy bitcount over a string,
+// json, ttl whose visibility depends on the expiration policy) say about that
+// same key is taken from the implementation.
+func relaxKey(exp, actual *dumpT, key string) {
+	for _, rd := range otherReads {
+		exp.text[entryName(rd, key)] = actual.text[entryName(rd, key)]
+	}
+	for _, rd := range ttlReads {
+		exp.text[rd+" "+key] = actual.text[rd+" "+key]
+	}
+}
